@@ -190,6 +190,16 @@ func (in *Interp) formatValue(verb byte, a Value) *Term {
 	return in.tb.Fresh("fmt", SortStr)
 }
 
+// hexDigit renders a 4-bit term as its lower-case hex digit (if-then-else chain over 16 constants).
+func (in *Interp) hexDigit(n *Term) *Term {
+	tb := in.tb
+	r := tb.Str("f")
+	for d := 14; d >= 0; d-- {
+		r = tb.Ite(tb.Eq(n, tb.BV(n.Sort.W, uint64(d))), tb.Str(strconv.FormatUint(uint64(d), 16)), r)
+	}
+	return r
+}
+
 // sprintf builds the message from the literal fragments of a constant format string.
 func (in *Interp) sprintf(format *Term, args []Value) *Term {
 	if !format.IsConst() {
@@ -210,9 +220,11 @@ func (in *Interp) sprintf(format *Term, args []Value) *Term {
 			break
 		}
 		// flags / width
+		fstart := i
 		for i < len(f) && strings.IndexByte("+-# 0123456789.", f[i]) >= 0 {
 			i++
 		}
+		flags := f[fstart:i]
 		if i >= len(f) {
 			break
 		}
@@ -226,7 +238,22 @@ func (in *Interp) sprintf(format *Term, args []Value) *Term {
 			lit = lit[:0]
 		}
 		if ai < len(args) {
-			parts = append(parts, in.formatValue(verb, args[ai]))
+			done := false
+			if verb == 'x' && flags == "04" {
+				if iv, ok := args[ai].(Iface); ok {
+					if t, ok := iv.V.(*Term); ok && t.Sort.K == KBV && t.Sort.W == 8 {
+						if t.IsConst() {
+							parts = append(parts, in.tb.Str(fmt.Sprintf("%04x", t.U)))
+						} else {
+							parts = append(parts, in.tb.Str("00"), in.hexDigit(in.tb.Extract(t, 7, 4)), in.hexDigit(in.tb.Extract(t, 3, 0)))
+						}
+						done = true
+					}
+				}
+			}
+			if !done {
+				parts = append(parts, in.formatValue(verb, args[ai]))
+			}
 			ai++
 		} else {
 			parts = append(parts, in.tb.Str("%!"+string(verb)+"(MISSING)"))
